@@ -738,6 +738,51 @@ def check_record(ctx, R="C18.record"):
     check_runtime_sampling(ctx, R)
 
 
+def check_dispatch(ctx, R="C18.dispatch"):
+    ctx.rule(
+        R,
+        "nested values go through the serializer's dispatcher: inside an implementation of serializeValue / deserializeValue a nested samplable is "
+        "written / read with serializer.writeSamplable / readSamplable (which skips values that need no sampling and writes a value that is referenced "
+        "several times ONCE, recording it in `values`); a direct call of another object's serializeValue / deserializeValue bypasses that bookkeeping, so "
+        "a value shared between the nested object and the rest of the scene is written twice (or not read back into `values`) and the two sides go out of step",
+    )
+    model = ctx.model
+    n = 0
+    for mname in sorted(model._paths):
+        if not mname.startswith("scenic.core"):
+            continue
+        try:
+            src = model.read(model._paths[mname])
+        except Exception:
+            continue
+        if "serializeValue" not in src:
+            continue
+        m = model.module(mname)
+        for q, fn in m.functions.items():
+            if q.split(".")[-1] not in ("serializeValue", "deserializeValue"):
+                continue
+            n += 1
+            bad = []
+            for c in walk_local(fn):
+                if isinstance(c, ast.Call) and isinstance(c.func, ast.Attribute) and c.func.attr in ("serializeValue", "deserializeValue"):
+                    recv = c.func.value
+                    if isinstance(recv, ast.Call) and dotted(recv.func) == "super":
+                        continue
+                    bad.append(c)
+            for c in bad:
+                ctx.finding(
+                    R,
+                    c,
+                    f"{q} calls {c.func.attr} directly",
+                    f"{mname}:{q} calls `{norm_text(c, 60)}` instead of serializer.{'writeSamplable' if c.func.attr == 'serializeValue' else 'readSamplable'}: the nested value is "
+                    f"encoded again even when it was already written for another object that refers to it (and `values` is not consulted), so encoder and decoder disagree "
+                    f"about the layout for scenes in which the selected option is shared",
+                )
+            if not bad:
+                ctx.ok(R, fn, f"{mname}:{q}: nested values only through the dispatcher")
+    ctx.floor(R, n, 6, "serializeValue / deserializeValue implementations")
+
+
 def check(ctx):
     ctx.run(check_symmetry)
     ctx.run(check_fail_closed)
@@ -748,3 +793,4 @@ def check(ctx):
     ctx.run(check_record)
     ctx.run(check_recorded)
     ctx.run(check_options_hash)
+    ctx.run(check_dispatch)
